@@ -142,6 +142,10 @@ func (g *gen) fletForm(d int) {
 	outerOf := map[*bind]cand{}
 	for i := 0; i < n; i++ {
 		name := g.binderName(fnPool)
+		if g.may("headname", 8) {
+			name = "test"
+			g.feat("head-special-cased-name")
+		}
 		// (flet ((f (a) (f a))) ...): in flet the inner call is the OUTER f
 		var outer *cand
 		if !labels && g.chance(35) {
